@@ -1,22 +1,22 @@
 SPECIFICATION VSpec
 CONSTANTS
   Accts = {"A1"}
-  BankNames = {"KB1", "DB1", "DB2", "DB3"}
+  BankNames = {"SB1", "SB2", "SB3"}
   Amounts = {1}
   Ticks = {1}
   LiqTriples <- NoTuples
   Prices <- NoTuples
   BkCases <- NoTuples
   MaxDepth = 3
-  KBanks = {"KB1"}
-  KAmounts = {1000}
+  KBanks <- NoBanks
+  KAmounts = {0}
   KBorrowed <- NoTuples
   KMaxDepth = 3
-  SBanks <- NoBanks
-  SAmounts = {0}
-  SBorrowed <- NoTuples
-  DBanks <- DBankSet
-  DAmounts = {0, 1, 3, 1000, 900001}
-  DCums <- DCumSet
+  SBanks <- SBankSet
+  SAmounts = {0, 1, 3, 1000, 900001, 1255640255}
+  SBorrowed = {0, 5, 2000000}
+  DBanks <- NoBanks
+  DAmounts = {0}
+  DCums <- NoTuples
 VIEW VView
 CHECK_DEADLOCK FALSE
